@@ -658,6 +658,9 @@ package decoder
 //@ func (*Stream).char(s) (c)
 //@   inline
 
+//@ func (*Stream).totalOffset(s) (r)
+//@   inline
+
 //@ func (*Stream).readBuf(s) (buf)
 //@   props C09 C06
 //@   requires wfStream(s)
@@ -675,4 +678,61 @@ package decoder
 //@   ensures wfStream(s) && s.cursor == old(s.cursor) && (ok ==> s.cursor <= s.length)
 // the bytes already consumed are never changed by a refill
 //@   ensures forall k :: 0 <= k && k < s.cursor ==> s.buf[k] == old(s.buf[k])
+//@   assigns all
+
+// ---------------------------------------------------------------- stream literals (C09, C06)
+
+//@ func nullBytes(s) (err)
+//@   props C09 C06
+//@   requires wfStream(s) && s.buf[s.cursor] == 'n'
+// chunk independence of the literal: on success the bytes consumed spell the literal, however the reader cut it
+//@   ensures err == nil ==> wfStream(s) && s.cursor == old(s.cursor) + 4 && s.buf[s.cursor - 4] == 'n' && s.buf[s.cursor - 3] == 'u' && s.buf[s.cursor - 2] == 'l' && s.buf[s.cursor - 1] == 'l'
+//@   assigns all
+//@   loop 1: invariant wfStream(s) && s.cursor == old(s.cursor) + 1 && s.buf[s.cursor - 1] == 'n'
+//@   loop 2: invariant wfStream(s) && s.cursor == old(s.cursor) + 2 && s.buf[s.cursor - 2] == 'n' && s.buf[s.cursor - 1] == 'u'
+//@   loop 3: invariant wfStream(s) && s.cursor == old(s.cursor) + 3 && s.buf[s.cursor - 3] == 'n' && s.buf[s.cursor - 2] == 'u' && s.buf[s.cursor - 1] == 'l'
+
+//@ func retryReadNull(s) (err)
+//@   props C09 C06
+//@   requires wfStream(s)
+//@   ensures wfStream(s) && s.cursor == old(s.cursor)
+//@   ensures forall k :: 0 <= k && k < s.cursor ==> s.buf[k] == old(s.buf[k])
+//@   ensures err == nil ==> old(s.buf[s.cursor]) == 0
+//@   assigns all
+
+//@ func trueBytes(s) (err)
+//@   props C09 C06
+//@   requires wfStream(s) && s.buf[s.cursor] == 't'
+// chunk independence of the literal: on success the bytes consumed spell the literal, however the reader cut it
+//@   ensures err == nil ==> wfStream(s) && s.cursor == old(s.cursor) + 4 && s.buf[s.cursor - 4] == 't' && s.buf[s.cursor - 3] == 'r' && s.buf[s.cursor - 2] == 'u' && s.buf[s.cursor - 1] == 'e'
+//@   assigns all
+//@   loop 1: invariant wfStream(s) && s.cursor == old(s.cursor) + 1 && s.buf[s.cursor - 1] == 't'
+//@   loop 2: invariant wfStream(s) && s.cursor == old(s.cursor) + 2 && s.buf[s.cursor - 2] == 't' && s.buf[s.cursor - 1] == 'r'
+//@   loop 3: invariant wfStream(s) && s.cursor == old(s.cursor) + 3 && s.buf[s.cursor - 3] == 't' && s.buf[s.cursor - 2] == 'r' && s.buf[s.cursor - 1] == 'u'
+
+//@ func retryReadTrue(s) (err)
+//@   props C09 C06
+//@   requires wfStream(s)
+//@   ensures wfStream(s) && s.cursor == old(s.cursor)
+//@   ensures forall k :: 0 <= k && k < s.cursor ==> s.buf[k] == old(s.buf[k])
+//@   ensures err == nil ==> old(s.buf[s.cursor]) == 0
+//@   assigns all
+
+//@ func falseBytes(s) (err)
+//@   props C09 C06
+//@   requires wfStream(s) && s.buf[s.cursor] == 'f'
+// chunk independence of the literal: on success the bytes consumed spell the literal, however the reader cut it
+//@   ensures err == nil ==> wfStream(s) && s.cursor == old(s.cursor) + 5 && s.buf[s.cursor - 5] == 'f' && s.buf[s.cursor - 4] == 'a' && s.buf[s.cursor - 3] == 'l' && s.buf[s.cursor - 2] == 's' && s.buf[s.cursor - 1] == 'e'
+//@   assigns all
+//@   loop 1: invariant wfStream(s) && s.cursor == old(s.cursor) + 1 && s.buf[s.cursor - 1] == 'f'
+//@   loop 2: invariant wfStream(s) && s.cursor == old(s.cursor) + 2 && s.buf[s.cursor - 2] == 'f' && s.buf[s.cursor - 1] == 'a'
+//@   loop 3: invariant wfStream(s) && s.cursor == old(s.cursor) + 3 && s.buf[s.cursor - 3] == 'f' && s.buf[s.cursor - 2] == 'a' && s.buf[s.cursor - 1] == 'l'
+//@   loop 4: invariant wfStream(s) && s.cursor == old(s.cursor) + 4 && s.buf[s.cursor - 4] == 'f' && s.buf[s.cursor - 3] == 'a' && s.buf[s.cursor - 2] == 'l' && s.buf[s.cursor - 1] == 's'
+
+//@ func retryReadFalse(s) (err)
+//@   props C09 C06
+//@   requires wfStream(s)
+//@   ensures wfStream(s) && s.cursor == old(s.cursor)
+//@   ensures forall k :: 0 <= k && k < s.cursor ==> s.buf[k] == old(s.buf[k])
+//@   ensures err == nil ==> old(s.buf[s.cursor]) == 0
 //@   assigns all
